@@ -8,13 +8,17 @@
  *   g set <tree> <path-hex> <sep-hex> <value-hex>
  *   g del <tree> <path-hex> <sep-hex>
  *   g get <tree> <path-hex> <sep-hex>
+ *   g seti <tree> <path-hex> <sep-hex>             assign an int32 (no text form: refused)
+ *   g setl <tree> <prefix-hex> <n> <suffix-hex> <sep-hex> <value-hex>   path = prefix, n x 'x', suffix
+ *   g has <tree> <path-hex> <sep-hex>              existence (query without handler)
  *   g view <path-hex> <sep-hex>
  *   g split <text-hex> <sep-hex> <assign-hex>      mpt_path_set + mpt_path_next until exhausted
  *   g last <text-hex> <sep-hex> <skip>             mpt_path_set, <skip> x mpt_path_next, mpt_path_last
  *   g build <mode> <sep-hex> <elem-hex>[,<elem-hex>...]   mode s|b: addchar/add each element, walk with next, del all
+ *   g rebuild <mode> <sep-hex> <elems> <skip> <elem-hex>   build, <skip> x next, del, add <elem>, walk the rest
  *
  * Output: R <verdict> | C G[<path>=<value>,...]P[...] | I <return code> tree=<dump>
- *   (pairs sorted; path elements hex, joined by '/'; only nodes with a value are listed)
+ *   (sorted; path elements hex, joined by '/'; every element is listed, `=<value>` when it has one)
  */
 #include "drv_util.h"
 #include <errno.h>
@@ -85,9 +89,15 @@ static void add_pair(const char *path, MPT_INTERFACE(convertable) *val)
 	const char *txt = 0;
 	char *p;
 	size_t plen = strlen(path), vlen = 0;
-	if (!val) return;
-	if (value_text(val, &txt, &vlen) < 0) { txt = "?noconv"; vlen = 7; }
 	if (npairs >= MAXP) return;
+	if (!val) {
+		/* element without value: the path alone */
+		p = malloc(plen + 1);
+		memcpy(p, path, plen + 1);
+		pairs[npairs++] = p;
+		return;
+	}
+	if (value_text(val, &txt, &vlen) < 0) { txt = "?noconv"; vlen = 7; }
 	if (!txt) vlen = 0;
 	p = malloc(plen + 2 * vlen + 8);
 	memcpy(p, path, plen);
@@ -267,23 +277,66 @@ int main(void)
 		if (!strcmp(op, "begin") && drv_nw == 2) {
 			result("ok", "0");
 		}
-		else if (!strcmp(op, "set") && drv_nw == 6) {
+		else if ((!strcmp(op, "set") && drv_nw == 6) || (!strcmp(op, "seti") && drv_nw == 5) || (!strcmp(op, "setl") && drv_nw == 8)) {
+			/* set: text value; seti: a value without text form (int32), which mpt_meta_new refuses;
+			 * setl: path text = <prefix> <n> x 'x' <suffix> (elements around the identifier limit of 65535 bytes) */
+			int32_t ival = 4711;
+			int isint = op[3] == 'i', islong = op[3] == 'l';
 			cfg = get_tree(drv_w[2], &kind);
-			ptxt = get_text(drv_w[3], &plen);
-			vtxt = get_text(drv_w[5], &vlen);
-			if (kind < 0 || !ptxt || !vtxt || get_char(drv_w[4], &sep)) { puts("bad-op"); free(ptxt); free(vtxt); continue; }
-			if (kind == 1) {
+			if (islong) {
+				char *pre = get_text(drv_w[3], &plen), *suf;
+				size_t slen = 0, n = 0;
+				suf = get_text(drv_w[5], &slen);
+				if (!pre || !suf || drv_parse_nat(drv_w[4], &n) || n < 65535 || n > 70000) { puts("bad-op"); free(pre); free(suf); continue; }
+				ptxt = malloc(plen + n + slen + 1);
+				memcpy(ptxt, pre, plen);
+				memset(ptxt + plen, 'x', n);
+				memcpy(ptxt + plen + n, suf, slen + 1);
+				free(pre); free(suf);
+				vtxt = get_text(drv_w[7], &vlen);
+				if (get_char(drv_w[6], &sep) || sep == 'x') { puts("bad-op"); free(ptxt); free(vtxt); continue; }
+			} else {
+				ptxt = get_text(drv_w[3], &plen);
+				if (!isint) vtxt = get_text(drv_w[5], &vlen);
+				if (get_char(drv_w[4], &sep)) { puts("bad-op"); free(ptxt); free(vtxt); continue; }
+			}
+			if (kind < 0 || !ptxt || (!isint && !vtxt)) { puts("bad-op"); free(ptxt); free(vtxt); continue; }
+			{
 				MPT_STRUCT(path) p = MPT_PATH_INIT;
 				const char *v = vtxt;
 				MPT_STRUCT(value) d = MPT_VALUE_INIT('s', &v);
+				MPT_STRUCT(value) di = MPT_VALUE_INIT('i', &ival);
 				p.sep = sep; p.assign = 0;
 				mpt_path_set(&p, ptxt, -1);
-				result(mpt_node_assign(&root, &p, &d) ? "ok" : "refused", "node");
-			} else {
-				r = mpt_config_set(cfg, ptxt, vtxt, sep, 0);
-				result(r < 0 ? "refused" : "ok", r < 0 ? drv_errname(r) : "0");   /* the code is the value type */
+				if (kind == 1) {
+					result(mpt_node_assign(&root, &p, isint ? &di : &d) ? "ok" : "refused", "node");
+				} else if (isint) {
+					if (!cfg) {
+						static MPT_INTERFACE(metatype) *gl;
+						if (!gl) gl = mpt_config_global(0);
+						if (!gl || MPT_metatype_convert(gl, MPT_ENUM(TypeConfigPtr), &cfg) < 0 || !cfg) { puts("bad-op"); free(ptxt); continue; }
+					}
+					r = cfg->_vptr->assign(cfg, &p, &di);
+					result(r < 0 ? "refused" : "ok", r < 0 ? drv_errname(r) : "0");
+				} else {
+					r = mpt_config_set(cfg, ptxt, vtxt, sep, 0);
+					result(r < 0 ? "refused" : "ok", r < 0 ? drv_errname(r) : "0");   /* the code is the value type */
+				}
 			}
 			free(ptxt); free(vtxt);
+		}
+		else if (!strcmp(op, "has") && drv_nw == 5) {
+			/* existence only: no handler */
+			MPT_STRUCT(path) p = MPT_PATH_INIT;
+			cfg = get_tree(drv_w[2], &kind);
+			ptxt = get_text(drv_w[3], &plen);
+			if (kind < 0 || !ptxt || get_char(drv_w[4], &sep)) { puts("bad-op"); free(ptxt); continue; }
+			p.sep = sep; p.assign = 0;
+			mpt_path_set(&p, ptxt, -1);
+			if (kind == 1) r = (mpt_node_query(root, &p) && !p.len) ? 0 : -1;
+			else r = mpt_config_query(cfg, &p, 0, 0);
+			result(r < 0 ? "absent" : "present", "-");
+			free(ptxt);
 		}
 		else if (!strcmp(op, "del") && drv_nw == 5) {
 			cfg = get_tree(drv_w[2], &kind);
@@ -458,6 +511,48 @@ int main(void)
 				result(out, ret);
 			}
 			free(ptxt);
+		}
+		else if (!strcmp(op, "rebuild") && drv_nw == 7 && (!strcmp(drv_w[2], "s") || !strcmp(drv_w[2], "b"))) {
+			/* g rebuild <mode> <sep-hex> <elems> <skip> <elem-hex>: build, <skip> x next on the SAME path (offset > 0),
+			 * del the last element, add <elem>, walk what is left */
+			MPT_STRUCT(path) p = MPT_PATH_INIT, q;
+			int bin = drv_w[2][0] == 'b', ok = 1, n, first = 1, dl;
+			size_t skip = 0, i;
+			char *save = 0, *tok, *e2;
+			char ret[64];
+			if (get_char(drv_w[3], &sep) || drv_parse_nat(drv_w[5], &skip) || skip > 8) { puts("bad-op"); continue; }
+			if (!(e2 = get_text(drv_w[6], &vlen))) { puts("bad-op"); continue; }
+			p.sep = sep; p.assign = 0;
+			if (bin) p.flags = MPT_PATHFLAG(SepBinary);
+			for (tok = strtok_r(drv_w[4], ",", &save); tok; tok = strtok_r(0, ",", &save)) {
+				size_t el;
+				char *e = get_text(tok, &el);
+				if (!e) { ok = 0; break; }
+				for (i = 0; i < el; i++) {
+					if (mpt_path_addchar(&p, (uint8_t) e[i]) < 0 || mpt_path_valid(&p) < 0) ok = 0;
+				}
+				if (mpt_path_add(&p, (int) el) < 0) ok = 0;
+				free(e);
+			}
+			for (i = 0; ok && i < skip; i++) if (!p.len || mpt_path_next(&p) < 0) ok = 0;
+			if (!ok || !p.len) { mpt_path_fini(&p); free(e2); result("unbuilt", "-"); continue; }
+			dl = mpt_path_del(&p);
+			for (i = 0; i < vlen; i++) {
+				if (mpt_path_addchar(&p, (uint8_t) e2[i]) < 0 || mpt_path_valid(&p) < 0) ok = 0;
+			}
+			r = mpt_path_add(&p, (int) vlen);
+			free(e2);
+			snprintf(out, sizeof(out), "del=%d add=%s elems=", dl, r < 0 ? "E" : "+");
+			q = p;
+			while (q.len && (n = mpt_path_next(&q)) >= 0) {
+				size_t start = q.off - (size_t) n - (bin ? 2 : 1);
+				put_elems(out, sizeof(out), q.base + start, (size_t) n, first);
+				first = 0;
+			}
+			if (first) strcat(out, "none");
+			snprintf(ret, sizeof(ret), "off=%zu len=%zu", p.off, p.len);
+			mpt_path_fini(&p);
+			result(out, ret);
 		}
 		else if (!strcmp(op, "build") && drv_nw == 5 && (!strcmp(drv_w[2], "s") || !strcmp(drv_w[2], "b"))) {
 			MPT_STRUCT(path) p = MPT_PATH_INIT, q;
